@@ -20,7 +20,16 @@ func MonC05() *Mon {
 	tipAt := map[*Node]uint32{}
 	tipHashAt := map[*Node]vt.H{}
 	inQuiet := func(n *Node) bool { x := quiet[n]; return x != nil && x.on }
+	visited := map[*Node]map[uint32]bool{} // heights this library instance has been at
+	bcAt := map[*Node]int{}
+	visit := func(n *Node, h uint32) {
+		if visited[n] == nil {
+			visited[n] = map[uint32]bool{}
+		}
+		visited[n][h] = true
+	}
 	return &Mon{Name: "C05",
+		Restarted: func(n *Node) { delete(visited, n) },
 		ProcessBlock: func(n *Node, b *vt.Block, err error) {
 			if inQuiet(n) {
 				n.W.Fail("C05", fmt.Sprintf("node %d: ProcessBlock(%d) called after the height was already decided", n.ID, b.Idx), "processblock-after-decision")
@@ -78,10 +87,14 @@ func MonC05() *Mon {
 				}
 				seenBefore[n] = m
 				tipAt[n], tipHashAt[n] = n.Tip, n.TipHash
+				bcAt[n] = n.Broadcasts()
 			}
 		},
 		AfterCall: func(n *Node, c *Call) {
 			w, d := n.W, n.D
+			if d.Validators != nil {
+				defer visit(n, d.BlockIndex)
+			}
 			if x := quiet[n]; x != nil && x.on {
 				x.on = false
 				if fp := Fingerprint(n, FPOpt{NoLastSeen: true, NoCache: true}); fp != x.fp {
@@ -116,6 +129,22 @@ func MonC05() *Mon {
 			}
 			if d.MyIndex != n.IndexAt(h) {
 				bad("wrong-myindex", "MyIndex=%d, want %d", d.MyIndex, n.IndexAt(h))
+			}
+			// timing taken afresh: when this instance never was at the previous height (heights skipped by
+			// ledger sync, or a fresh instance) nothing it remembers may shorten the first timer; checked when
+			// the call did nothing but initialise (no cached traffic acted upon)
+			if n.Active() && d.ViewNumber == 0 && !d.BlockSent() && n.Broadcasts() == bcAt[n] && h > 0 && !visited[n][h-1] && n.Timer.Resets > c.PreTimer.Resets {
+				want := w.Cfg.TimePerBlock
+				if !d.IsPrimary() {
+					want *= 2
+				}
+				w.Stat("c05_first_timer_checked")
+				if len(visited[n]) > 0 {
+					w.Stat("c05_first_timer_after_skipped_heights")
+				}
+				if t := n.Timer; t.H != h || t.V != 0 || t.D0 != want {
+					bad("stale-timing", "first timer is (%d,%d,%s), want (%d,0,%s): this instance never was at height %d, nothing may adjust it", t.H, t.V, t.D0, h, want, h-1)
+				}
 			}
 			N := len(want)
 			M := refM(N)
